@@ -189,16 +189,6 @@ Fixpoint verb_scan (od cd : N) (l : str) (depth n : nat) : option nat :=
       else verb_scan od cd r depth (S n)
   end.
 
-(** the number of optional arguments that are not written *)
-Definition nabs (l : list item2) : nat :=
-  length (filter (fun a => match a with Abs2 => true | _ => false end) l).
-
-(** the model's own fuel ([8 * |s| + 40]) pays for an absent argument out of
-    the characters of the token that starts the call: a call token written with
-    [written] characters may be followed by at most [8 * written - 4] absent
-    arguments (always true of real signatures) *)
-Definition slots_ok (absent written : nat) : bool := Nat.leb (absent + 4) (8 * written).
-
 (** [ok_item2 cx ps ex i fol]: [i] is unambiguous when written in parsing state
     [ps] and followed by the string [fol] (up to the end of the input); [ex]
     lists the characters that are group delimiters where [i] is written (the
@@ -314,7 +304,7 @@ Fixpoint ok_item2 (cx : context) (ps : pstate) (ex : str) (i : item2) (fol : str
          | Some sp =>
              match sp_args sp with
              | APStd l =>
-                 oka args l fol && slots_ok (nabs args) (1 + length name)
+                 oka args l fol
                  && mac_follow_ok2 name post (flat_map unparse_item2 args ++ fol)
              | APLegacy _ => false
              end
@@ -331,7 +321,6 @@ Fixpoint ok_item2 (cx : context) (ps : pstate) (ex : str) (i : item2) (fol : str
              match sp_args sp with
              | APStd l =>
                  oka args l (flat_map unparse_item2 b ++ tr ++ end_str ews name ++ fol)
-                 && slots_ok (nabs args) (length (begin_str bws name))
                  && oks (if sp_body_math sp then ps_enter_math ps None else ps) [] b
                         (tr ++ end_str ews name ++ fol)
              | APLegacy _ => false
@@ -351,7 +340,7 @@ Fixpoint ok_item2 (cx : context) (ps : pstate) (ex : str) (i : item2) (fol : str
       && match get_specials_spec cx chars with
          | Some sp =>
              match sp_args sp with
-             | APStd l => oka args l fol && slots_ok (nabs args) (length chars)
+             | APStd l => oka args l fol
              | APLegacy _ => false
              end
          | None => false
